@@ -61,6 +61,8 @@ type run struct {
 	stop    bool
 	seekOutstanding bool // GetHistory left the State seeked and no block came since
 	stakeBad        map[common.Uint168]bool
+	stakeByz        map[common.Uint168]bool // stake addresses with two or more vote transactions in one (Byzantine) block
+	dualListed      bool // a producer has been seen in two of the state's producer maps at once
 	seekTaint       bool // a block was processed while a seek was outstanding (until the instance is replaced)
 	forcedInSpan    bool // a rolled-back block carried an InactiveArbitrators payload (pre-processed at height-1)
 	deepSingleCall  bool // the last rollback was one OnRollbackTo over more than one block (the node itself goes block by block)
@@ -92,7 +94,7 @@ func execute(c *core.Ctx) {
 	w.lastReturn = map[int]*candTx{}
 	w.subscribe()
 	r := &run{world: w, ext: map[uint32]blockExt{}, seekViews: map[uint32][]leaf{},
-		roundAt: map[uint32]int{}, algAt: map[uint32]byte{}, stakeBad: map[common.Uint168]bool{}}
+		roundAt: map[uint32]int{}, algAt: map[uint32]byte{}, stakeBad: map[common.Uint168]bool{}, stakeByz: map[common.Uint168]bool{}}
 	for _, raw := range p.Steps {
 		var s Step
 		if err := json.Unmarshal(raw, &s); err != nil {
